@@ -28,6 +28,29 @@ CLAIMED = {
         "OR-Tools' export and SCIP/HiGHS/GLOP are trusted; tolerances 1e-5 feasibility, 1e-4 objective",
         "DESIGN.md section 4 C05",
     ),
+    "C02": (
+        "boundary monitor at solve_major_model + exhaustive reference evaluator over all allele multisets",
+        "The arguments and result of every solve_major_model call are captured at the boundary (filtered evidence, "
+        "candidate set, structure); an exhaustive plain-Python evaluator of the documented objective over all allele "
+        "multisets decides per call: configuration counts, carried-XOR-novel for every observed core variant, score "
+        "equality, no lower admissible combination, completeness within the gap, no duplicates; the candidate filter is "
+        "recomputed from the raw table; noise-free evidence of (all / sampled) pairs and multisets of catalogued major "
+        "alleles of all 38 shipped databases x 2 builds must return the planted combination with error 0.",
+        "reference evaluator ref/majorref.py is trusted (validated by seeded mutants); skipped oversized cases are counted",
+        "DESIGN.md section 4 C02",
+    ),
+    "C03": (
+        "boundary monitor at solve_cn_model/estimate_cn + LP shadow monitor + exhaustive structure enumerator",
+        "Every solve_cn_model call on planted/noisy/random region depths (toy, CYP2A6, CYP2D6, GSTM1, generated "
+        "databases; max copy number 3-6; gap 0/0.1/0.3; long-read fusion support incl. threshold values) is compared with "
+        "an exhaustive enumeration of all admissible structures (two complete configurations x extra gene copies x "
+        "pseudogene copies): admissibility, score equality, global optimum, gap, no repeats, containment-completeness, "
+        "region_cn; the LP monitor shows the internal assignment of every yielded solution (two complete "
+        "configurations, deletion exclusivity). User-supplied lists, junk names, default two copies (exome/male/X) and "
+        "the arguments estimate_cn hands to the model are checked by wrappers.",
+        "reference evaluator ref/cnref.py is trusted (validated by seeded mutants)",
+        "DESIGN.md section 4 C03",
+    ),
 }
 
 NOT_YET = {}
